@@ -750,6 +750,12 @@ func writeEvidence(id, tier string, seed int, pc *PropCfg, ld *Loaded, ex *Exec,
 	}
 	sort.Strings(used)
 	trusted = append(trusted, used...)
+	var cbs []string
+	for k := range CallbackAssumptions {
+		cbs = append(cbs, k)
+	}
+	sort.Strings(cbs)
+	trusted = append(trusted, cbs...)
 	for _, t := range trustedContracts {
 		trusted = append(trusted, "assumed (unverified) contract: "+t)
 	}
